@@ -1,14 +1,30 @@
 """C17 — tree merges obey the three-way merge laws.
 
-Mechanism: breezy/merge.py Merge3Merger._compute_transform / _entries3 /
+Mechanism: breezy/merge.py Merge3Merger._compute_transform (incl. the `if copied:` normalisation) / _entries3 /
 _merge_names / _do_merge_contents + merge_contents / _merge_executable, the
 Merger front end (from_revision_ids, find_base, make_merger, do_merge) and
 wt.merge_from_branch; merge types Merge3Merger, WeaveMerger, LCAMerger; bzr 2a
 and git working trees.
 
-Model: Model/C17.lean `mergeEntry` (per id, every attribute through
-C18.threeWay) and `merge3`; theorems merge_other_eq_base, merge_this_eq_base,
-merge_identical, merge_disjoint (+ _wf, union_spec) for ALL trees.
+Model (Model/C17.lean):
+  * `mergeEntry` (per file id, every attribute through C18.threeWay) and `merge3`;
+  * `mergeChange`: the literal loop body of _compute_transform on ONE element of _entries3 given as the
+    attribute triples (changed, pairs3, parents3, names3, executable3, copied), with `normCopy` = the
+    `if copied:` block;
+  * `applyChanges`: a whole merge on path-keyed (git) trees driven by whatever (base path, other path, this
+    path, copied) pairing iter_changes / the rename detector reports.
+Theorems (Props/C17.lean, all for ALL trees / entries, no bound):
+  merge_other_eq_base, merge_this_eq_base, merge_identical, merge_disjoint (+ _wf, union_spec)   the four laws, id-keyed
+  mergeEntry_attr_disjoint, merge_attr_disjoint     each attribute changed by at most one side => every change taken, no conflict (A5)
+  mergeEntry_conflicts_nil_iff, threeWay_conflict_iff   NO conflict is reported  <=>  OTHER left the file alone or name,
+                                                    parent, kind+content are each clean (converse of the laws' hypotheses)
+  mergeChange_ofEntries        the triple-level loop body refines to mergeEntry
+  mergeChange_copied           a copy is merged as OTHER's own entry (own exec bit), whatever the source's attributes
+  git_merge_other_eq_base, git_merge_this_eq_base, git_merge_identical, git_merge_disjoint
+                               the four laws for path-keyed trees and ANY enumeration satisfying IsDiff (renames,
+                               exact / inexact copies, adds, deletes), via placements_of_results / applyChanges_of_results
+  pathKeyed_no_path_conflict   id = path => never a path conflict
+  witnesses: conflict_witness, conflict_kinds_witness, copy_without_normalisation_witness, exec_norm_needed_witness
 
 T2: a random well-formed BASE tree over a small namespace (dirs, files,
 symlinks, exec bits; git: files/symlinks keyed by path) and one or two random
@@ -18,15 +34,31 @@ give tree triples generated AS the relationships
     well-formed union | A5 same ids, different attributes (THIS renames/moves,
     OTHER edits/chmods) | T6 same file, disjoint line ranges (bzr: all merge
     types; git: merge3 only)
+  + the COPY family (git mostly): OTHER contains files that git's rename detector reports as copies of a BASE
+    file (OTHER rewrites / chmods / renames / deletes the source and adds 1..3 verbatim or similar copies, each
+    with its OWN random exec bit, in random directories), as L2 / L3 / L4
+  + C7 (bzr, NOT a law, tie only): both sides change the SAME entry differently, every (op of THIS, op of OTHER)
+    pair of rename/move/delete/edit/chmod/kind.
 The three trees are committed on real branches (base -> this in the working
 tree, base -> other in a sprouted branch), merged through the real front end,
-and the resulting working tree dump (id -> parent, name, kind, content, exec
-from disk) plus conflicts() is compared with the Lean model.  L4 candidates
-whose union is not well-formed go to an excluded-input stream (counted, the
+and compared with the model in three ways:
+  (a) id/path-keyed: the working tree dump (id -> parent, name, kind, content, exec from disk) plus conflicts()
+      against driver op `merge` (mergeEntry per id);
+  (b) entries-level: list(real Merge3Merger._entries3()) of a second, never-executed merger is fed element by
+      element to driver op `change` (mergeChange; contents looked up in the abstract trees, every other attribute
+      taken from the real element), THIS + the per-element results (`compose`, mirrors applyChanges) must be
+      the real merged tree — this ties the copy normalisation and git's rename pairing;
+  (c) C7: the model's per-file conflicts (path / contents; text merge) against wt.conflicts() per file id
+      (cook_conflicts drops a path conflict beside a contents conflict), and the merged tree when only
+      path / text conflicts occurred (winner_idx "conflict" -> OTHER's value);
+  (d) the hypotheses of the git_merge_* theorems (IsDiff, where THIS has the files) are evaluated on the real
+      enumeration of every git L2/L3/L4 case (a failure is reported as a tie gap).
+L4 candidates whose union is not well-formed go to an excluded-input stream (counted, the
 real outcome recorded, nothing demanded).
 Oracle: the law itself, evaluated on the dump without the model: L1 == THIS,
 L2 == OTHER, L3 == THIS, L4 == union, A5/T6 == both changes applied; always:
-no conflicts, no stray files.
+no conflicts — neither in wt.conflicts() nor in the list do_merge() / merge_from_branch() RETURNS (a git working
+tree does not persist every conflict) — and no stray files.
 
 Findings on the unchanged tree (families computed from the input):
   git-dir-rename-vs-change-inside   git: one side renames/moves a directory, the other adds/changes a
@@ -39,6 +71,13 @@ Findings on the unchanged tree (families computed from the input):
   git-identical-move-into-new-directory
                                     git: both sides move a file into the same new directory: merge raises
                                     KeyError / ImmortalPendingDeletion (the file can vanish from disk)
+  git-identical-directory-rename-spurious-conflict   (NEW, found through the returned-conflicts oracle)
+                                    git: both sides empty directory X and move its file into the same new directory Y:
+                                    git reports the directory rename X -> Y, find_previous_path finds no X in THIS, the
+                                    element (X, Y, None) gives a path conflict: do_merge() returns / prints
+                                    "Text conflict in Y" although the trees are identical; the index drops it.
+                                    A family violation whose ONLY difference is an executable bit is never attributed
+                                    to a git family (they are all about paths).
 Repaired in /repo after this check found it (fix: ec61b74, _set_mode os.stat -> os.lstat): THIS has a
 symlink whose target chain loops (b -> b), OTHER turns it into a file: the merge died with ELOOP.  No family
 is attached to it any more; reverting the fix gives a plain VIOLATION (self-test mutant 12).
@@ -53,11 +92,16 @@ of OTHER lost); (12) _set_mode back to os.stat (= fix ec61b74 reverted); (13) `c
 renaming the source: the copy silently missing; pinned corpus + randomised copy shapes); (6) _default_other_winner_merge "delete" -> "done" (OTHER's
 deletions lost); (7) contents_pair ignoring symlink targets; (8) _merge_names
 only when changed_content (pure renames lost); (10) Merger.find_base choosing
-this_basis as base; (11) executability = other or this.  Equivalent under the
-four laws (only reachable in conflict situations, not caught, by design):
-(5) dropping the `this_name is None` override; (9) the exec fallback when OTHER
-has no such path.  Harmless rewrite kept clean: resolver(*names) spelled out
-and reordered.
+this_basis as base; (11) executability = other or this; (17 = seeded change C17b) the copy block taking
+executable3[0] (the SOURCE's bit in BASE) instead of executable3[1]: oracle (L2/L3/L4, all merge types) + entries tie;
+(15) the copy block keeping parents3[0]: a copy into another directory gets a path conflict that only do_merge()'s
+return value shows: oracle (returned conflicts) + entries tie.  Caught by the tie only (conflict situations, outside
+the four laws; VIOLATION … no-failing-input-found): (14) winner_idx "conflict" -> 2 (C7 tree comparison);
+(16) _merge_executable conflict fallback always "other" (C7, needs the widened search on some seeds); (5) dropping the
+`this_name is None` override (C7: on some seeds only — it shows in the tree only through the parent of a file THIS
+deleted and OTHER renamed below a directory).  Not detectable (dead in practice): (9) the exec fallback
+`elif this_path is not None` (only reached after a contents conflict, where final_kind is None).
+Harmless rewrite kept clean: resolver(*names) spelled out and reordered.
 """
 import os
 import shutil
@@ -69,22 +113,38 @@ THEOREMS = [
     "mergeEntry_other_eq_base", "mergeEntry_this_eq_base", "mergeEntry_same",
     "merge_other_eq_base", "merge_this_eq_base", "merge_identical", "merge_disjoint",
     "merge_disjoint_wf", "union_spec", "conflict_witness",
+    # the loop body on _entries3 triples, copies
+    "mergeChange_ofEntries", "mergeChange_copied", "mergeChange_changed_irrelevant", "copy_without_normalisation_witness",
+    # attribute-wise disjoint changes, exact conflict characterisation
+    "mergeEntry_attr_disjoint", "merge_attr_disjoint", "threeWay_conflict_iff", "mergeEntry_conflicts_nil_iff",
+    "conflict_kinds_witness", "pathKeyed_no_path_conflict", "exec_norm_needed_witness",
+    # whole merges on path-keyed (git) trees for any enumeration
+    "look_norm", "placements_of_results", "applyChanges_of_results", "git_merge_other_eq_base",
+    "git_merge_this_eq_base", "git_merge_identical", "git_merge_disjoint",
+    # helper lemmas the refinement rests on (Lemmas/C17.lean)
+    "namesStepC_ofEntries", "contentsStepC_ofEntries", "execStepC_ofEntries", "normCopy_ofEntries_copied",
+    "namesStep_one_side", "contentsStep_one_side", "execStep_one_side", "threeWay_one_side",
 ]
 RULE = ("case = (format 2a|git, merge type merge3|weave|lca, front end from_revision_ids|merge_from_branch, "
-        "relationship L1..L4/A5/T6, BASE tree, change scripts); non-trivial = at least one side changed something "
-        "other than content (rename/move/delete/add/kind/exec) or both sides changed; distinct by the three trees")
+        "relationship L1..L4/A5/T6, copy family shape x L2/L3/L4, or C7 op pair; BASE tree, change scripts); non-trivial = "
+        "at least one side changed something other than content (rename/move/delete/add/kind/exec/copy) or both sides "
+        "changed; distinct by the three trees")
 ASSUMPTIONS = [
     "the file-system conflict pass (transform.resolve_conflicts) is the identity when the attribute-level result is a "
     "well-formed tree (checked: every law-shaped case ends without conflicts and equals the model)",
-    "git trees are compared path-keyed (a rename is a deletion plus an addition); criss-cross histories "
-    "(_entries_lca) are not generated",
+    "git: the enumeration of iter_changes (dulwich tree_changes + RenameDetector) and find_previous_path satisfy the "
+    "hypotheses of git_merge_* (IsDiff; THIS has the files where the relationship says) — evaluated on the real "
+    "enumeration of every git L2/L3/L4 case; criss-cross histories (_entries_lca) are not generated",
 ]
 TRUSTED = ["text merge of one file changed on both sides is not modelled (T6 compares it with the obvious expected text only)",
-           "C18.threeWay is the model of _three_way (tied by C18's own T1/T2)"]
+           "C18.threeWay is the model of _three_way (tied by C18's own T1/T2)",
+           "entries-level tie: contents of an element are looked up in the harness's abstract trees by the element's real paths; "
+           "putting the per-element results back into THIS (compose) is harness code mirroring Model.applyChanges"]
 
 F_GITDIR = "git-dir-rename-vs-change-inside"
 F_GITSAME = "git-duplicate-content-rename-detection"
 F_GITNEWDIR = "git-identical-move-into-new-directory"
+F_GITDIRREN = "git-identical-directory-rename-spurious-conflict"
 ROOT = "ROOT"
 NAMES = ["a", "b", "c", "d", "e", "f", "g"]
 
@@ -285,7 +345,10 @@ def changed_ids(base, t):
 LONG = [b"line %d\n" % i for i in range(1, 13)]
 
 
-def gen_case(rng, rel, git=False):
+C7_OPS = ["rename", "move", "delete", "edit", "chmod", "kind"]
+
+
+def gen_case(rng, rel, git=False, pair=None):
     """returns (base, this, other, expected, info) abstract trees"""
     base = gen_base(rng, git)
     info = {}
@@ -344,6 +407,47 @@ def gen_case(rng, rel, git=False):
         exp = copy_tree(this)
         exp["long"]["content"] = b"".join(both)
         ops = ["edit", "edit"]
+    elif rel == "X3":
+        # criss-cross history (two LCAs B, C; Merger hands their trees to the merge type, which then enumerates with
+        # _entries_lca and decides with _lca_multi_way): both tips carry the SAME tree => THIS unchanged, no conflicts
+        lb, _, ops1 = script(rng, base, None, "b")
+        lc, _, ops2 = script(rng, base, None, "c")
+        this, _, ops3 = script(rng, lb, None, "x")
+        other = copy_tree(this)
+        exp = this
+        ops = ops1 + ops2 + ops3
+        if not (wf(lb) and wf(lc)) or lb == lc:
+            return None
+        info["lcas"] = (lb, lc)
+    elif rel == "C7":
+        # NOT a law: both sides change the SAME entry, differently (`pair` = the op of THIS and the op of OTHER).
+        # Only the tie is evaluated here (the model's conflict branches, winner_idx "conflict", the this-absent
+        # override, the exec fallbacks)
+        cand = [i for i, e in base.items() if i != ROOT]
+        files = [i for i in cand if base[i]["kind"] == "f"]
+        if not cand:
+            return None
+        target = rng.choice(files if files and rng.random() < 0.7 else cand)
+        opt, opo = pair or (rng.choice(C7_OPS), rng.choice(C7_OPS))
+        this, _, ops1 = script(rng, base, [target], "t", ops=[opt], nmax=1)
+        other, _, ops2 = script(rng, base, [target], "o", ops=[opo], nmax=1)
+        if rng.random() < 0.3:      # a second change on one side
+            extra = rng.choice(C7_OPS)
+            if rng.random() < 0.5:
+                this, _, o3 = script(rng, this, [target], "t", ops=[extra], nmax=1)
+                this = this if wf(this) else None
+            else:
+                other, _, o3 = script(rng, other, [target], "o", ops=[extra], nmax=1)
+                other = other if wf(other) else None
+            if this is None or other is None:
+                return None
+            ops1 = ops1 + o3
+        both = [i for i in changed_ids(base, this) & changed_ids(base, other) if this.get(i) != other.get(i)]
+        if not both:
+            return None
+        ops = ops1 + ops2
+        info["pair"] = "%s/%s" % (opt, opo)
+        exp = {}
     else:
         raise ValueError(rel)
     if not (wf(base) and wf(this) and wf(other)):
@@ -409,6 +513,31 @@ def git_family(base, this, other):
         if any(q != ROOT and q not in this and same(be, te) for q, be in base.items()):
             return F_GITNEWDIR
     return None
+
+
+def identical_dir_rename(base, this, other, reported):
+    """input classifier (git views): both sides empty a directory X of BASE completely and both have the same new
+    directory Y holding a blob that was below X (git then reports the directory rename X -> Y); every reported
+    conflict is on such a Y"""
+    def dirs(t):
+        out = set()
+        for p in t:
+            if p != ROOT:
+                while "/" in p:
+                    p = p.rsplit("/", 1)[0]
+                    out.add(p)
+        return out
+    db, dt, do = dirs(base), dirs(this), dirs(other)
+    gone = db - dt - do
+    new = (dt & do) - db
+    ys = set()
+    for y in new:
+        for p, e in this.items():
+            if p != ROOT and p.startswith(y + "/") and other.get(p) == e and any(
+                    q != ROOT and any(q.startswith(x + "/") for x in gone) and (be["kind"], be["content"]) == (e["kind"], e["content"])
+                    for q, be in base.items()):
+                ys.add(y)
+    return bool(ys) and all(path in ys for _t, path in reported)
 
 
 # --------------------------------------------------------------------------
@@ -602,12 +731,123 @@ def dump_git(wt):
 MERGE_TYPES = {"merge3": "Merge3Merger", "weave": "WeaveMerger", "lca": "LCAMerger"}
 
 
+def _s(x):
+    return x.decode() if isinstance(x, bytes) else x
+
+
+def real_entries(merger):
+    """list(Merge3Merger._entries3()) of a not-yet-executed merger, made picklable; None for a criss-cross merger"""
+    if merger._lca_trees is not None:
+        return None
+    ents = []
+    with merger.base_tree.lock_read(), merger.other_tree.lock_read(), merger.this_tree.lock_read():
+        for file_id, changed, paths3, parents3, names3, executable3, copied in merger._entries3():
+            ents.append(dict(file_id=_s(file_id), changed=bool(changed), paths3=[_s(x) for x in paths3],
+                             parents3=[_s(x) for x in parents3], names3=[_s(x) for x in names3],
+                             executable3=list(executable3), copied=bool(copied)))
+    return ents
+
+
+def by_path(t, git):
+    """path -> entry of an abstract tree (git: of its git view)"""
+    if git:
+        return {p: e for p, e in t.items() if p != ROOT}
+    pp = paths_of(t)
+    return {pp[i]: e for i, e in t.items()}
+
+
+def change_lines(c, res, codes):
+    """the model requests `change ...` for the real _entries3 elements of one case, and what is needed to put the
+    model's per-element results back into a tree.  Contents come from the abstract trees (by path), every other
+    attribute from the real element."""
+    git = c["fmt"] == "git"
+    trees = [c["base"], c["other"], c["this"]]
+    if git:
+        trees = [git_view(t) for t in trees]
+    maps = [by_path(t, git) for t in trees]
+    ents = res["entries"]
+    ptab, ntab = {}, {}
+
+    def code(tab, v):
+        return tab.setdefault(v, len(tab) + 1)
+    lines, keys = [], []
+    for en in ents:
+        pairs, parents, names, execs = [], [], [], []
+        ok = True
+        for k in range(3):
+            path = en["paths3"][k]
+            if path is None:
+                pairs.append("~"); parents.append("~"); names.append("~")
+                execs.append("~" if en["executable3"][k] is None else "T" if en["executable3"][k] else "F")
+                continue
+            e = maps[k].get(path)
+            if e is None:
+                if git and path == "":
+                    ok = False      # the root directory of a git tree: not part of the git view
+                    break
+                # a directory of a git tree (implicit in the view)
+                pairs.append("d.0")
+            else:
+                pairs.append("%s.%d" % (e["kind"], 0 if e["kind"] == "d" else codes.conts[e["content"]]))
+            par = en["parents3"][k]
+            parents.append("^" if par is None else str(code(ptab, par)))
+            names.append("~" if en["names3"][k] is None else str(code(ntab, en["names3"][k])))
+            x = en["executable3"][k]
+            execs.append("~" if x is None else "T" if x else "F")
+        if not ok:
+            continue
+        lines.append("change %s %s %s %s %s %s" % ("T" if en["changed"] else "F", "T" if en["copied"] else "F",
+                                                 "/".join(pairs), "/".join(parents), "/".join(names), "/".join(execs)))
+        keys.append(en)
+    return lines, keys, {v: k for k, v in ptab.items()}, {v: k for k, v in ntab.items()}
+
+
+def compose(c, res, codes, keys, replies, pinv, ninv, dump):
+    """THIS with the model's per-element results put in place: (tree, {key: [conflict kinds]}).
+    bzr: keyed by file id; git: keyed by path (the element's trans_id is THIS's path, its final place parent/name)."""
+    git = c["fmt"] == "git"
+    cinv = {v: k for k, v in codes.conts.items()}
+    exp = copy_tree(git_view(c["this"]) if git else c["this"])
+    confs = {}
+    placed = []
+    for en, rep in zip(keys, replies):
+        ent, cf = rep.split(" ")
+        fid = en["file_id"]
+        if git:
+            key = en["paths3"][1] if en["copied"] else (en["paths3"][2] or en["paths3"][1] or en["paths3"][0])
+            if not en["copied"] and en["paths3"][2] is not None:
+                exp.pop(en["paths3"][2], None)
+        else:
+            key = ROOT if fid == res.get("rootid") else fid
+            exp.pop(key, None)
+        if cf != "-":
+            confs[key] = cf.split(",")
+        if ent == "-":
+            continue
+        p, n, k, cc, x = ent.split(":")
+        parent = None if p == "^" else pinv[int(p)]
+        name = ninv[int(n)]
+        if git:
+            if k == "d":
+                continue
+            path = name if parent in (None, "") else parent + "/" + name
+            content = dump.get(path, {}).get("content") if cc == "?" else cinv[int(cc)]
+            placed.append((path, E(ROOT, path, k, content, x == "T")))
+        else:
+            parent = ROOT if parent == res.get("rootid") else parent
+            content = b"" if k == "d" else dump.get(key, {}).get("content") if cc == "?" else cinv[int(cc)]
+            placed.append((key, E(parent, name, k, content, x == "T")))
+    for key, e in placed:
+        exp[key] = e
+    return exp, confs
+
+
 def run_case(c):
     """c: dict(fmt, mtype, via, rel, base, this, other).  Builds the branches, merges, dumps."""
     from breezy import merge as _mod_merge
     fmt = c["fmt"]
     base, this, other = c["base"], c["this"], c["other"]
-    out = dict(exc=None, dump=None, extra=None, conflicts=None)
+    out = dict(exc=None, dump=None, extra=None, conflicts=None, reported=None)
     try:
         wt = env.make_tree(fmt)
         if fmt == "git":
@@ -615,21 +855,47 @@ def run_case(c):
             sync_git(wt, {ROOT: gb[ROOT]}, gb)
         else:
             build_bzr(wt, base)
-        wt.commit("base", allow_pointless=True)
+        base_rev = wt.commit("base", allow_pointless=True)
         odir = env.fresh_dir("other")
         owt = wt.controldir.sprout(odir).open_workingtree()
-        if fmt == "git":
+        if c["rel"] == "X3":
+            # base -> B (in THIS's branch), base -> C (in OTHER's branch); each tip then records the other side's
+            # LCA as a merged parent and carries the tree this/other: LCAs of the tips = {B, C}
+            lb, lc = c["info"]["lcas"]
+            sync_bzr(wt, base, lb)
+            rev_b = wt.commit("lca B", allow_pointless=True)
+            sync_bzr(owt, base, lc)
+            rev_c = owt.commit("lca C", allow_pointless=True)
+            wt.branch.repository.fetch(owt.branch.repository, rev_c)
+            owt.branch.repository.fetch(wt.branch.repository, rev_b)
+            owt.add_pending_merge(rev_b)
+            sync_bzr(owt, lc, other)
+            other_rev = owt.commit("other (merges B)", allow_pointless=True)
+            wt.add_pending_merge(rev_c)
+            sync_bzr(wt, lb, this)
+            wt.commit("this (merges C)", allow_pointless=True)
+        elif fmt == "git":
             sync_git(owt, gb, go)
+            other_rev = owt.commit("other", allow_pointless=True)
         else:
             sync_bzr(owt, base, other)
-        other_rev = owt.commit("other", allow_pointless=True)
+            other_rev = owt.commit("other", allow_pointless=True)
         if fmt == "git":
             out["index_repaired"] = repair_git_index(owt, go)
-        if fmt == "git":
+            if c.get("info", {}).get("copy"):
+                # how many entries the real iter_changes(OTHER vs BASE) reports as copies (evidence only)
+                repo = owt.branch.repository
+                ot, bt = repo.revision_tree(other_rev), repo.revision_tree(base_rev)
+                with ot.lock_read(), bt.lock_read():
+                    out["copied"] = sum(1 for ch in ot.iter_changes(bt) if ch.copied)
+        if c["rel"] == "X3":
+            pass
+        elif fmt == "git":
             sync_git(wt, gb, gt)
+            wt.commit("this", allow_pointless=True)
         else:
             sync_bzr(wt, base, this)
-        wt.commit("this", allow_pointless=True)
+            wt.commit("this", allow_pointless=True)
         if fmt == "git":
             out["index_repaired"] = (out.get("index_repaired") or 0) + repair_git_index(wt, gt)
     except Exception as e:  # noqa
@@ -637,18 +903,34 @@ def run_case(c):
         return out
     mt = getattr(_mod_merge, MERGE_TYPES[c["mtype"]])
     try:
+        # the elements the real _entries3 yields for this merge (input of the entries-level tie): taken from
+        # a second, never-executed merger so that the merge under test runs exactly as a user would run it
+        with wt.lock_write():
+            m0 = _mod_merge.Merger.from_revision_ids(wt, other_rev, other_branch=owt.branch)
+            m0.merge_type = mt
+            out["entries"] = real_entries(m0.make_merger())
+            out["criss_cross"] = bool(m0._is_criss_cross)
+            if fmt != "git":
+                out["rootid"] = wt.path2id("").decode()
+    except Exception as e:  # noqa
+        out["entries_exc"] = type(e).__name__ + ":" + str(e)[:200]
+    try:
         if c["via"] == "merger":
             with wt.lock_write():
                 m = _mod_merge.Merger.from_revision_ids(wt, other_rev, other_branch=owt.branch)
                 m.merge_type = mt
-                m.do_merge()
+                reported = m.do_merge()
         else:
-            wt.merge_from_branch(owt.branch, merge_type=mt)
+            reported = wt.merge_from_branch(owt.branch, merge_type=mt)
+        # the conflicts the merge itself REPORTS (its return value): a git working tree does not persist every
+        # conflict in its index, so wt.conflicts() alone would miss some
+        out["reported"] = sorted((x.typestring, getattr(x, "path", None) or "") for x in (reported or []))
     except Exception as e:  # noqa
         out["exc"] = "merge:" + type(e).__name__ + ":" + str(e)[:200]
     try:
         out["dump"], out["extra"] = (dump_git if fmt == "git" else dump_bzr)(wt)
         out["conflicts"] = sorted((x.typestring, x.path) for x in wt.conflicts())
+        out["conflict_ids"] = sorted((x.typestring, (getattr(x, "file_id", None) or b"").decode()) for x in wt.conflicts())
     except Exception as e:  # noqa
         out["exc"] = (out["exc"] or "") + " dump:" + type(e).__name__ + ":" + str(e)[:200]
     return out
@@ -717,10 +999,25 @@ def corpus_cases():
     return out
 
 
+def pending_finding_cases():
+    """pinned inputs of findings that are NOT yet triaged (no fix in /repo, no known-finding entry): evaluated LAST so
+    that any other violation of a run is the one reported first"""
+    out = []
+    # git: both sides empty directory c (move its only file into the same new directory d): the trees are identical,
+    # yet do_merge() returns "Text conflict in d" (family git-identical-directory-rename-spurious-conflict)
+    base = {ROOT: E(None, "", "d"), "d2": E(ROOT, "c", "d"), "d6": E(ROOT, "d", "d"), "f5": E(ROOT, "a", "f", b"y\n5\n"),
+            "s4": E("d2", "c", "l", b"target")}
+    this = copy_tree(base)
+    this["s4"]["parent"] = "d6"
+    out.append(dict(fmt="git", mtype="merge3", via="merger", rel="L3", base=base, this=this, other=copy_tree(this),
+                    exp=copy_tree(this), info=dict(ops=["move"])))
+    return out
+
+
 OLD = b"".join(b"line %d\n" % i for i in range(8))
 
 
-def copy_case(shape, law, mtype="merge3", via="merger", old=OLD, xname="x", ex=False):
+def copy_case(shape, law, mtype="merge3", via="merger", old=OLD, xname="x", ex=False, cex=None):
     """git: OTHER adds `c`, a copy of the BASE version of `a` (dulwich reports it as copied), while it also
     rewrites `a` (shape "modify") or renames it to `b` (shape "rename"); law L2 (THIS = BASE) or L4 (THIS
     edits another file)."""
@@ -730,23 +1027,120 @@ def copy_case(shape, law, mtype="merge3", via="merger", old=OLD, xname="x", ex=F
         other["fa"]["content"] = b"completely rewritten\n"
     else:
         other["fa"]["name"] = "b"
-    other["nc"] = E(ROOT, "c", "f", old, ex)
+    other["nc"] = E(ROOT, "c", "f", old, ex if cex is None else cex)
+    if shape == "split":
+        # OTHER deletes `a` and adds two identical files: one is the rename, the other a copy
+        del other["fa"]
+        other["nc"]["exec"] = ex
+        other["nd"] = E(ROOT, "c2", "f", old, ex if cex is None else cex)
     this = copy_tree(base)
     if law == "L4":
         this["fx"]["content"] = b"x1\nthis edit\n"
+    if law == "L3":
+        this = copy_tree(other)
     exp = copy_tree(other)
     exp["fx"] = dict(this["fx"])
     return dict(fmt="git", mtype=mtype, via=via, rel=law, base=base, this=this, other=other, exp=exp,
                 info=dict(ops=["copy", shape], union_wf=True))
 
 
-def build_cases(ctx, n):
+COPY_SHAPES = ["modify", "chmod", "rename", "split", "near"]
+WORDS = [b"alpha", b"beta", b"gamma", b"delta", b"epsilon", b"zeta"]
+
+
+def gen_copy_case(rng, law, shape, fmt="git", mtype="merge3", via="merger"):
+    """OTHER contains files that git's rename detector reports as COPIES of a BASE file `src` (bzr trees never report
+    copies: the same triple is then an ordinary add).  Shapes: OTHER rewrites ("modify") or only chmods ("chmod") src and
+    adds verbatim copies of its BASE text; renames src and adds copies ("rename": of the identical adds one is the
+    rename, the others are copies); deletes src and adds >= 2 identical files ("split"); rewrites src and adds a
+    similar-but-not-identical file ("near": an inexact copy).  Every copy gets its own random exec bit, independent of
+    the exec bit of src in BASE (the copy's attributes are OTHER's, not the source's).  Laws: L2 (THIS = BASE),
+    L3 (THIS = OTHER), L4 (THIS changes other files)."""
+    base = gen_base(rng, True)
+    lines = [b"%s %d\n" % (rng.choice(WORDS), rng.randint(0, 999)) for _ in range(rng.randint(6, 12))]
+    old = b"".join(lines)
+    parent = rng.choice(dirs_of(base))
+    name = free_name(rng, base, parent)
+    if name is None:
+        return None
+    base["src"] = E(parent, name, "f", old, rng.random() < 0.5)
+    other = copy_tree(base)
+    ncopies = rng.randint(1, 2)
+    if shape == "modify":
+        other["src"]["content"] = rng.choice([b"completely rewritten\n", old + b"one more line\n", b"".join(lines[1:])])
+    elif shape == "chmod":
+        other["src"]["exec"] = not other["src"]["exec"]
+    elif shape == "rename":
+        nn = free_name(rng, other, other["src"]["parent"])
+        if nn is None:
+            return None
+        other["src"]["name"] = nn
+    elif shape == "split":
+        del other["src"]
+        ncopies = rng.randint(2, 3)
+    elif shape == "near":
+        other["src"]["content"] = b"completely rewritten\n"
+    else:
+        raise ValueError(shape)
+    execs = []
+    for k in range(ncopies):
+        d = rng.choice(dirs_of(other))
+        nn = free_name(rng, other, d)
+        if nn is None:
+            return None
+        content = old
+        if shape == "near" or (shape in ("modify", "rename") and rng.random() < 0.25):
+            near = list(lines)
+            near[rng.randrange(len(near))] = b"changed in the copy %d\n" % k
+            content = b"".join(near)
+        ex = rng.random() < 0.5
+        execs.append(ex)
+        other["nc%d" % (k + 1)] = E(d, nn, "f", content, ex)
+    info = dict(ops=["copy", "copy:" + shape], union_wf=True, copy=True,
+                copy_exec=("differs" if any(x != base["src"]["exec"] for x in execs) else "same"))
+    if law == "L2":
+        this = copy_tree(base)
+        exp = copy_tree(other)
+    elif law == "L3":
+        this = copy_tree(other)
+        exp = copy_tree(other)
+    elif law == "L4":
+        allowed = [i for i, e in base.items() if i not in (ROOT, "src") and e["kind"] != "d"]
+        if not allowed:
+            return None
+        this, _, ops = script(rng, base, allowed, "t", ops=["edit", "chmod", "rename", "delete", "add", "kind"], nmax=3)
+        cht, cho = changed_ids(base, this), changed_ids(base, other)
+        if not cht or cht & cho:
+            return None
+        exp = {}
+        for i in set(base) | set(this) | set(other):
+            src = other if i in cho else this
+            if i in src:
+                exp[i] = dict(src[i])
+        if not wf(exp):
+            return None
+        vb, vt, vo = git_view(base), git_view(this), git_view(other)
+        if changed_ids(vb, vt) & changed_ids(vb, vo):
+            return None
+        info["ops"] = info["ops"] + ops
+    else:
+        raise ValueError(law)
+    if not (wf(base) and wf(this) and wf(other)):
+        return None
+    return dict(fmt=fmt, mtype=mtype, via=via, rel=law, base=base, this=this, other=other, exp=exp, info=info)
+
+
+def build_cases(ctx, n, scale=1):
     rng = ctx.rng
     cases = corpus_cases()
     # pinned: copies on git trees (seeded defect: `changed = True` dropped from the `if copied:` branch)
     for shape in ("modify", "rename"):
         for law in ("L2", "L4"):
             cases.append(copy_case(shape, law))
+    # pinned: a copy whose exec bit differs from its source's bit in BASE (seeded defect C17b: executable3[0])
+    cases.append(copy_case("modify", "L2", ex=True, cex=False))
+    cases.append(copy_case("split", "L3", mtype="weave", ex=False, cex=True))
+    cases.append(copy_case("rename", "L4", mtype="lca", via="mfb", ex=False, cex=True))
     # and randomised variants of the same shapes
     for _ in range(ctx.pick(4, 40)):
         old = b"".join(rng.choice([b"alpha\n", b"beta\n", b"gamma\n", b"delta %d\n" % rng.randint(0, 99)])
@@ -754,6 +1148,46 @@ def build_cases(ctx, n):
         cases.append(copy_case(rng.choice(["modify", "rename"]), rng.choice(["L2", "L4"]),
                                mtype=rng.choice(["merge3", "weave", "lca"]), via=rng.choice(["merger", "mfb"]),
                                old=old, xname=rng.choice(["x", "d", "e"]), ex=rng.random() < 0.3))
+    # the copy family at large: every shape x law, random surroundings, independent exec bits of the copies
+    k = 0
+    want = ctx.pick(30, 200) * scale
+    got = 0
+    for _ in range(want * 20):
+        if got >= want:
+            break
+        shape = COPY_SHAPES[k % len(COPY_SHAPES)]
+        law = ["L2", "L3", "L4"][(k // len(COPY_SHAPES)) % 3]
+        g = gen_copy_case(rng, law, shape, fmt="2a" if rng.random() < 0.15 else "git",
+                          mtype=rng.choice(["merge3", "merge3", "weave", "lca"]), via=rng.choice(["merger", "merger", "mfb"]))
+        k += 1
+        if g is None:
+            continue
+        cases.append(g)
+        got += 1
+    # the conflict stream: every (op of THIS, op of OTHER) pair on one entry, bzr trees (conflicts are compared per file id)
+    for rnd in range(ctx.pick(1, 6) * scale):
+        for opt in C7_OPS:
+            for opo in C7_OPS:
+                for _try in range(6):
+                    g = gen_case(rng, "C7", False, pair=(opt, opo))
+                    if g is not None:
+                        base, this, other, exp, info = g
+                        cases.append(dict(fmt="2a", mtype=rng.choice(["merge3", "merge3", "weave", "lca"]),
+                                          via=rng.choice(["merger", "merger", "mfb"]), rel="C7", base=base, this=this,
+                                          other=other, exp=exp, info=info))
+                        break
+    # criss-cross histories with identical tips (bzr: _entries_lca needs inventories)
+    got = 0
+    for _ in range(ctx.pick(12, 80) * scale * 10):
+        if got >= ctx.pick(12, 80) * scale:
+            break
+        g = gen_case(rng, "X3", False)
+        if g is None:
+            continue
+        base, this, other, exp, info = g
+        cases.append(dict(fmt="2a", mtype=["merge3", "weave", "lca"][got % 3], via=rng.choice(["merger", "mfb"]), rel="X3",
+                          base=base, this=this, other=other, exp=exp, info=info))
+        got += 1
     rels = ["L1", "L2", "L3", "L4", "L4", "L4", "A5", "T6"]
     k = 0
     tries = 0
@@ -778,10 +1212,10 @@ def build_cases(ctx, n):
                     continue          # e.g. both sides touch the same path through renames
         cases.append(dict(fmt=fmt, mtype=mtype, via=via, rel=rel, base=base, this=this, other=other, exp=exp, info=info))
         k += 1
-    return cases
+    return cases + pending_finding_cases()
 
 
-def evaluate(ctx, c, res, lines, impls, recs):
+def evaluate(ctx, c, res, lines, impls, recs, pend=None):
     fmt, rel = c["fmt"], c["rel"]
     base, this, other, exp = c["base"], c["this"], c["other"], c["exp"]
     excluded = rel == "L4" and not (c["info"].get("union_wf") and wf(exp))
@@ -812,17 +1246,37 @@ def evaluate(ctx, c, res, lines, impls, recs):
             ctx.count("family-input:" + fam)
     rec = dict(fmt=fmt, mtype=c["mtype"], via=c["via"], rel=rel,
                base=jsonable(c["base"]), this=jsonable(c["this"]), other=jsonable(c["other"]))
+    if rel == "X3":
+        rec["lcas"] = [jsonable(t) for t in c["info"]["lcas"]]
     interesting = bool(set(c["info"]["ops"]) - {"edit"}) or rel in ("L4", "A5", "T6")
-    ctx.case([fmt, c["mtype"], c["via"], rel, rec["base"], rec["this"], rec["other"]], nontrivial=interesting and not excluded)
+    ctx.case([fmt, c["mtype"], c["via"], rel, rec["base"], rec["this"], rec["other"], rec.get("lcas")],
+             nontrivial=interesting and not excluded)
     ctx.count("fmt:" + fmt); ctx.count("type:" + c["mtype"]); ctx.count("via:" + c["via"]); ctx.count("rel:" + rel)
     ctx.count("ids:%d" % len(set(base) | set(this) | set(other)))
     for op in c["info"]["ops"]:
         ctx.count("op:" + op)
+    if c["info"].get("copy"):
+        ctx.count("copy-exec-vs-source:%s:%s" % (fmt, c["info"].get("copy_exec")))
+        if fmt == "git":
+            ctx.count("git-copies-reported-by-iter_changes:%s:%s:%s" % (c["info"]["ops"][1], rel, min(res.get("copied") or 0, 3)))
     if res.get("index_repaired"):
         ctx.count("git-index-repaired-after-kind-change-commit", res["index_repaired"])
     if res["exc"] and res["exc"].startswith("setup:"):
         ctx.count("setup-failed")
         ctx.extra.setdefault("setup_failures", []).append(res["exc"])
+        return
+    if rel == "C7":
+        ctx.count("C7:" + ("raised" if res["exc"] else "conflicts" if res["conflicts"] else "clean"))
+        ctx.count("C7:pair:" + c["info"].get("pair", "?"))
+        for t, _p in res["conflicts"] or []:
+            ctx.count("C7:real:" + t)
+        if pend is not None and not res["exc"] and res.get("entries") is not None and res["dump"] is not None:
+            codes2 = Codes([base, this, other])
+            cl, keys, pinv, ninv = change_lines(c, res, codes2)
+            pend.append(dict(c=c, res=res, codes=codes2, lines=cl, keys=keys, pinv=pinv, ninv=ninv, rec=rec,
+                             dump=res["dump"], mode="conflict"))
+            ctx.count("entries-tie:conflict-cases")
+            ctx.count("entries-tie:elements", len(cl))
         return
     if fmt == "git" and rel == "A5" and any(p in base and this[p] != base[p] for p in this):
         # THIS renamed a file onto a path another file had in BASE (rename chain / swap): "the same file"
@@ -841,18 +1295,54 @@ def evaluate(ctx, c, res, lines, impls, recs):
     dump = res["dump"]
     # ---- oracle: the law itself -------------------------------------------
     nviol = len(ctx.violations)
+    if fam == F_GITNEWDIR and not res["conflicts"] and not res["extra"] and dump == exp and res.get("reported") \
+            and identical_dir_rename(base, this, other, res["reported"]):
+        # the tree is right, but the merge RETURNS a conflict on the new directory (not the raise of F_GITNEWDIR)
+        fam = F_GITDIRREN
     if res["conflicts"]:
         ctx.violation(rec, "%s: conflicts reported %r" % (rel, res["conflicts"]), family=fam)
+    elif res.get("reported"):
+        ctx.violation(rec, "%s: the merge returned conflicts %r (not recorded in the working tree)" % (rel, res["reported"]),
+                      family=fam)
     if res["extra"]:
         ctx.violation(rec, "%s: stray unversioned files %r" % (rel, res["extra"]), family=fam)
     if dump != exp:
         diff = {i: (jsonable({i: dump[i]})[i] if i in dump else None, jsonable({i: exp[i]})[i] if i in exp else None)
                 for i in set(dump) | set(exp) if dump.get(i) != exp.get(i)}
+        # the known git families are about PATHS (a file at the wrong place / missing / unversioned); a merged
+        # tree that has every path, kind and content right and only an executable bit wrong is none of them
+        exec_only = set(dump) == set(exp) and all(
+            {k: v for k, v in dump[i].items() if k != "exec"} == {k: v for k, v in exp[i].items() if k != "exec"} for i in dump)
         ctx.violation(rec, "%s: merged tree differs from %s: {id: (got, expected)} = %r" % (
-            rel, {"L1": "THIS", "L2": "OTHER", "L3": "THIS", "L4": "the union"}.get(rel, "both changes applied"), diff),
-            family=fam)
+            rel, {"L1": "THIS", "L2": "OTHER", "L3": "THIS", "X3": "THIS", "L4": "the union"}.get(rel, "both changes applied"), diff),
+            family=None if exec_only else fam)
     if fam and len(ctx.violations) > nviol:
         return      # reported under its family; the path-keyed model has nothing more to say about it
+    if rel == "X3":
+        ctx.count("X3:criss-cross-detected:%s" % res.get("criss_cross"))
+        return          # oracle only: _entries_lca / _lca_multi_way enumeration is not modelled here (C18 models the decision)
+    # ---- entries-level tie: the model's loop body on the elements the real _entries3 yields --------------
+    if pend is not None and res.get("entries") is not None and not fam:
+        codes2 = Codes([base, this, other])
+        cl, keys, pinv, ninv = change_lines(c, res, codes2)
+        pend.append(dict(c=c, res=res, codes=codes2, lines=cl, keys=keys, pinv=pinv, ninv=ninv, rec=rec, dump=dump,
+                         mode="law"))
+        ctx.count("entries-tie:cases")
+        ctx.count("entries-tie:elements", len(cl))
+        if fmt == "git" and rel in ("L2", "L3", "L4"):
+            bad = isdiff_check(c, res)
+            ctx.count("git-IsDiff-hypotheses:" + rel + ":" + ("hold" if not bad else "fail:" + "+".join(bad)))
+            if bad:
+                # the git_merge_* theorems do not cover this enumeration: a gap in the tie, reported as such
+                ctx.mismatch(rec, impl="real _entries3 enumeration %r" % [(e["paths3"], e["copied"]) for e in res["entries"]],
+                             model="hypotheses of git_merge_* (IsDiff / where THIS has the files) fail: %s" % "+".join(bad))
+        for en in keys:
+            if en["copied"]:
+                ctx.count("entries-tie:copied-elements")
+            elif en["paths3"][0] and en["paths3"][1] and en["paths3"][0] != en["paths3"][1]:
+                ctx.count("entries-tie:renamed-elements")
+    elif pend is not None and res.get("entries_exc"):
+        ctx.count("entries-tie:unavailable")
     # ---- model ----------------------------------------------------------------
     if fmt == "git" and rel == "A5":
         # rename + edit of the same file: the real code follows git's rename detection, the path-keyed
@@ -880,14 +1370,121 @@ def evaluate(ctx, c, res, lines, impls, recs):
     recs.append(rec)
 
 
+def isdiff_check(c, res):
+    """the hypotheses of git_merge_this_eq_base / _identical / _disjoint (IsDiff + where THIS has the files),
+    evaluated on the REAL enumeration of a git case.  Returns the list of conditions that fail ([] = all hold)."""
+    vb, vo, vt = git_view(c["base"]), git_view(c["other"]), git_view(c["this"])
+    for t in (vb, vo, vt):
+        t.pop(ROOT, None)
+    els = []
+    for en in res["entries"]:
+        src, dst, cur = en["paths3"]
+        # directories are implicit in git trees: elements about them carry no information in the view
+        if (src is not None and src not in vb) or (dst is not None and dst not in vo):
+            if (src is None or src not in vb) and (dst is None or dst not in vo):
+                continue
+        els.append((src, dst, cur, en["copied"]))
+    bad = []
+    dsts = {d for _s, d, _c, _cp in els if d is not None}
+    for src, dst, cur, cp in els:
+        if not cp and vo.get(dst) == vb.get(src):      # view entries carry their path as name
+            bad.append("changed")
+        if cp and dst not in vo:
+            bad.append("copyTarget")
+        if dst is not None and (dst not in vo or vo.get(dst) == vb.get(dst)):
+            bad.append("target")
+        if src is not None and src not in vb:
+            bad.append("source")
+        if not cp and src is not None and not (src not in vo or src in dsts):
+            bad.append("vacated")
+    for p in set(vb) | set(vo):
+        if vo.get(p) != vb.get(p):
+            if not (p in dsts or (p not in vo and any(s == p and not cp for s, _d, _c, cp in els))):
+                bad.append("complete")
+    rel = c["rel"]
+    for src, dst, cur, cp in els:
+        if cp:
+            continue
+        if rel == "L2" and cur != src:
+            bad.append("cur=src")
+        if rel == "L3" and cur != dst:
+            bad.append("cur=dst")
+        if rel == "L4" and (cur != src or vt.get(src) != vb.get(src)):
+            bad.append("cur=src,this=base")
+    return sorted(set(bad))
+
+
+def entries_tie(ctx, pend):
+    """one batched model call for all `change` requests; per case: THIS with the model's per-element results put
+    in place must be the real merged tree, and the model must report no conflict (law-shaped cases)"""
+    flat = [l for p in pend for l in p["lines"]]
+    if not flat:
+        return
+    replies = ctx.model(flat)
+    k = 0
+    for p in pend:
+        rep = replies[k:k + len(p["lines"])]
+        k += len(p["lines"])
+        if any(r == "bad-op" or " " not in r for r in rep):
+            ctx.mismatch(p["rec"], impl="(entries)", model="bad-op for %r" % [l for l, r in zip(p["lines"], rep) if " " not in r or r == "bad-op"][:2])
+            continue
+        try:
+            exp, confs = compose(p["c"], p["res"], p["codes"], p["keys"], rep, p["pinv"], p["ninv"], p["dump"])
+        except Exception as e:  # noqa
+            ctx.mismatch(p["rec"], impl="(entries)", model="compose failed: %r" % (e,))
+            continue
+        dump = p["dump"]
+        ctx.traces += 1
+        if p["mode"] == "conflict":
+            # cook_conflicts drops the path conflict of a file that also has a contents conflict
+            want = set()
+            tm = set()
+            for i, v in confs.items():
+                if "contents" in v:
+                    want.add((i, "contents conflict"))
+                elif "path" in v:
+                    want.add((i, "path conflict"))
+                if "textmerge" in v:
+                    tm.add(i)
+            rootid = p["res"].get("rootid")
+            real = [(ROOT if i == rootid else i, t) for t, i in p["res"]["conflict_ids"]]
+            got = {(i, t) for i, t in real if t in ("path conflict", "contents conflict")}
+            text = {i for i, t in real if t == "text conflict"}
+            other_types = {t for i, t in real if t not in ("path conflict", "contents conflict", "text conflict")}
+            for i, t in want:
+                ctx.count("C7:model:" + t)
+            if tm:
+                ctx.count("C7:model:text merge", len(tm))
+            if want != got or not text <= tm:
+                ctx.mismatch(p["rec"], impl="conflicts %r text %r" % (sorted(got), sorted(text)),
+                             model="conflicts %r text-merged %r" % (sorted(want), sorted(tm)))
+            elif not other_types and not any(t == "contents conflict" for _i, t in got):
+                # only path / text conflicts: the merged tree is predicted too (winner_idx: conflict -> OTHER's value)
+                ctx.count("C7:tree-compared")
+                if exp != dump:
+                    diff = {i: (jsonable({i: dump[i]})[i] if i in dump else None, jsonable({i: exp[i]})[i] if i in exp else None)
+                            for i in set(dump) | set(exp) if dump.get(i) != exp.get(i)}
+                    ctx.mismatch(p["rec"], impl="merged tree (real)", model="entries-level model: {key: (real, model)} = %r" % (diff,))
+            continue
+        if p["mode"] == "law":
+            confs = {i: [x for x in v if x != "textmerge"] for i, v in confs.items()}
+            confs = {i: v for i, v in confs.items() if v}
+            if exp != dump or confs:
+                diff = {i: (jsonable({i: dump[i]})[i] if i in dump else None, jsonable({i: exp[i]})[i] if i in exp else None)
+                        for i in set(dump) | set(exp) if dump.get(i) != exp.get(i)}
+                ctx.mismatch(p["rec"], impl="merged tree (real)", model="entries-level model: {key: (real, model)} = %r conflicts=%r"
+                             % (diff, confs))
+
+
 def run(ctx, scale=1):
-    n = ctx.pick(80, 800) * scale
-    cases = build_cases(ctx, n)
+    n = ctx.pick(120, 800) * scale
+    cases = build_cases(ctx, n, scale)
     results = ctx.pmap(_run, cases)
-    lines, impls, recs = [], [], []
+    lines, impls, recs, pend = [], [], [], []
     for c, r in zip(cases, results):
-        evaluate(ctx, c, r, lines, impls, recs)
+        evaluate(ctx, c, r, lines, impls, recs, pend)
     ctx.diff(recs, lines, impls)
+    entries_tie(ctx, pend)
     ctx.extra["cases"] = len(cases)
 
 
@@ -901,7 +1498,7 @@ def replay(ctx, case):
     base, this, other = c["base"], c["this"], c["other"]
     rel = c["rel"]
     cho = changed_ids(base, other)
-    if rel in ("L1", "L3"):
+    if rel in ("L1", "L3", "X3"):
         exp = this
     elif rel == "L2":
         exp = other
@@ -914,15 +1511,19 @@ def replay(ctx, case):
         if rel in ("A5", "T6"):
             exp = None
     c["info"] = dict(ops=["replay"], union_wf=wf(exp) if exp else True)
+    if rel == "X3":
+        c["info"]["lcas"] = tuple(unjson(t) for t in case["lcas"])
     res = run_case(c)
     out = dict(case=case, exc=res["exc"], conflicts=res["conflicts"], extra=res["extra"],
-               dump=jsonable(res["dump"]) if res["dump"] else None)
+               dump=jsonable(res["dump"]) if res["dump"] else None, entries=res.get("entries"))
     if exp is not None:
         c["exp"] = exp
-        lines, impls, recs = [], [], []
-        evaluate(ctx, c, res, lines, impls, recs)
+        lines, impls, recs, pend = [], [], [], []
+        evaluate(ctx, c, res, lines, impls, recs, pend)
         if lines:
             out["model"] = ctx.model(lines)[0]
             out["impl"] = impls[0]
+        entries_tie(ctx, pend)          # the loop-body model on the real _entries3 elements (and, C7, the conflicts)
+        out["entries_tie_mismatches"] = [dict(impl=m.get("impl"), model=m.get("model")) for m in ctx.mismatches if m]
     out["oracle_failures"] = [v["what"] for v in ctx.violations]
     return out
